@@ -64,6 +64,9 @@ def _compare_one(job):
         return _compare_lirwat(job)
     ignore_types = False
     mains_only = False
+    loose = mode.endswith("+loose")
+    if loose:
+        mode = mode[:-6]
     if mode.startswith("whole"):
         # whole-program comparison from the entry points (signatures may differ between the snapshots)
         mains_only = True
@@ -80,7 +83,7 @@ def _compare_one(job):
     for n in names:
         t0 = time.time()
         try:
-            r = irsym.compare_function(n, A, B, bounds, enter=(mode == "enter"), ignore_type_names=ignore_types)
+            r = irsym.compare_function(n, A, B, bounds, enter=(mode == "enter"), ignore_type_names=ignore_types, loose_refs=loose)
         except irsym.Unsupported as e:
             r = {"status": "skipped", "why": str(e)}
         except irsym.Budget as e:
@@ -193,6 +196,9 @@ def run_pipeline(res, tier, sc, drv, only_prog=None):
                 res.violation("emitted WebAssembly module of %s is invalid (%s): %s" % (name, vf, v["error"]),
                               {"program": name, "modules": mods, "wasmparser": v["error"]})
         J = lambda f: os.path.join(od, f)
+        # source-level sum values (HIR EnumInit / ConditionalDestructure) vs the representation and decision
+        # chains the compiler chose (generics specialisation + enum layout + match lowering)
+        jobs.append((name, J("hir.json"), J("mir_s1_specialized.json"), "whole+loose", wb, None))
         jobs.append((name, J("mir_s1_specialized.json"), J("mir_s2_deduplicated.json"), "whole+anytype", wb, None))
         jobs.append((name, J("mir_s2_deduplicated.json"), J("mir_s3_const_param_eliminated.json"), "whole", wb, None))
         # a self tail call becomes a loop iteration: calls are entered on both sides (recursion depth = iterations)
@@ -329,3 +335,67 @@ def run_lirwat(res, tier, sc, drv):
                 elif r["status"] in ("error", "inconclusive"):
                     res.inconc("%s/%s: %s" % (prog, r["fn"], str(r.get("why"))[-300:]))
     return {"backend_programs": programs, "backend_functions": stats}
+
+
+def run_enum_layout(res, tier, sc, drv):
+    """C01 (enum layout choice, mir_generics_specialization.rs): for every enum type of every corpus program the
+    representation chosen by the real compiler must be injective - no run-time value may represent two different
+    variants.  Values are modelled as an algebraic datatype (i31 with payload | struct instance of a named type);
+    each type's value set is unfolded from the dumped type definitions and z3 decides, for all values, whether
+    two variants of one enum overlap."""
+    import z3
+    outroot = os.path.join(sc.root, "et")
+    checked = 0
+    collisions = 0
+    for name, mods in corpus(sc, tier):
+        od = os.path.join(outroot, name)
+        f = os.path.join(od, "mir_s1_specialized.json")
+        if not os.path.exists(f):
+            p = drv.call(["dump", od, "none"] + mods, check=False, timeout=600)
+            if not os.path.exists(f):
+                raise Inconclusive("no specialised MIR snapshot for %s" % name)
+        js = json.load(open(f))
+        types = {t["name"]: t for t in js["types"]}
+        Val = z3.Datatype("Val")
+        Val.declare("i31", ("payload", z3.IntSort()))
+        Val.declare("obj", ("ty", z3.StringSort()))
+        Val = Val.create()
+        v = z3.Const("v", Val)
+
+        def members(tname, depth):
+            """formula over v: v is a run-time value of type tname"""
+            t = types.get(tname)
+            if t is None or t["kind"] == "struct":
+                return z3.And(Val.is_obj(v), Val.ty(v) == z3.StringVal(tname))
+            if depth <= 0:
+                return z3.BoolVal(True)     # over-approximation beyond the unfolding depth (never reached: acyclic)
+            return z3.Or(*[variant(tname, k, var, depth) for k, var in enumerate(t["variants"])]) if t["variants"] else z3.BoolVal(False)
+
+        def variant(tname, k, var, depth):
+            if var["k"] == "int31":
+                return z3.And(Val.is_i31(v), Val.payload(v) == k)
+            if var["k"] == "boxed":
+                return z3.And(Val.is_obj(v), Val.ty(v) == z3.StringVal("%s$_Sub%d" % (tname, k)))
+            return members(var["t"], depth - 1)
+
+        for tname, t in types.items():
+            if t["kind"] != "enum" or len(t["variants"]) < 2:
+                continue
+            checked += 1
+            s = z3.Solver()
+            s.set("timeout", 20000)
+            pairs = []
+            n = len(t["variants"])
+            for j in range(n):
+                for k in range(j + 1, n):
+                    pairs.append(z3.And(variant(tname, j, t["variants"][j], len(types)), variant(tname, k, t["variants"][k], len(types))))
+            s.add(z3.Or(*pairs))
+            r = s.check()
+            if r == z3.sat:
+                collisions += 1
+                m = s.model()
+                res.violation("%s: enum %s has two variants that share the run-time value %s" % (name, tname, m.eval(v, model_completion=True)),
+                              {"program": name, "enum": tname, "variants": t["variants"], "shared_value": str(m.eval(v, model_completion=True))})
+            elif r != z3.unsat:
+                res.inconc("enum layout query for %s/%s: solver unknown" % (name, tname))
+    return {"enum_layouts_checked": checked, "enum_layout_collisions": collisions}
